@@ -7,7 +7,7 @@
 (* deviation does not mention is still judged by the contract.                     *)
 EXTENDS BlobStore, TLC
 
-KnownIds == {"C03-KF1", "C03-KF2", "C03-KF3", "C03-KF4", "C03-KF5", "C03-KF6", "C03-KF7"}
+KnownIds == {"C03-KF1", "C03-KF2", "C03-KF3", "C03-KF4", "C03-KF5", "C03-KF6", "C03-KF7", "C03-KF8"}
 
 (* the probe event with replaceable judgements for get / size / len answers *)
 ProbeWith(ids, g, c, s, n, G(_, _, _), S(_, _, _), L(_)) ==
@@ -132,6 +132,22 @@ G7(e, subj) == /\ subj.fam = "triekey" /\ subj.variant = "memory"
                /\ ~GetByKeyOk(e.k, e.ok, e.d)
 KF7(e, subj) == G7(e, subj) /\ Same
 
+(* ---------------------------------------------------------------------------------------- *)
+(* C03-KF8: DictZipBlobStore with entropy_algorithm = Fse: for large records the FSE stage     *)
+(* produces output that its own decoder rejects (a 64 KiB record "compresses" to ~16 KiB), so  *)
+(* get of a live id returns Err while contains / size / len still report the record.  Only the *)
+(* error answer is admitted; returned bytes must still equal the stored record.                *)
+FseSubj(subj) == subj.fam = "dictzip" /\ subj.variant \in {"fse", "fse_x4"}
+Get8(id, ok, d) == IF IsLive(id) THEN (ok => d = live[id]) ELSE ~ok
+G8(e, subj) ==
+    /\ FseSubj(subj)
+    /\ \/ e.op = "get"   /\ IsLive(e.id) /\ ~e.ok
+       \/ e.op = "probe" /\ \E i \in 1..Len(e.ids) : IsLive(e.ids[i]) /\ ~e.get[i].ok
+KF8(e, subj) ==
+    /\ G8(e, subj)
+    /\ \/ e.op = "get"   /\ Same
+       \/ e.op = "probe" /\ ProbeWith(e.ids, e.get, e.contains, e.size, e.len, Get8, SizeOk, LenOk)
+
 (* guard (state predicate) and action of each deviation *)
 DevApplies(id, e, subj) ==
     \/ id = "C03-KF1" /\ G1(e, subj)
@@ -141,6 +157,7 @@ DevApplies(id, e, subj) ==
     \/ id = "C03-KF5" /\ G5(e, subj)
     \/ id = "C03-KF6" /\ G6(e, subj)
     \/ id = "C03-KF7" /\ G7(e, subj)
+    \/ id = "C03-KF8" /\ G8(e, subj)
 KnownDeviation(id, e, subj) ==
     \/ id = "C03-KF1" /\ KF1(e, subj)
     \/ id = "C03-KF2" /\ KF2(e, subj)
@@ -149,4 +166,5 @@ KnownDeviation(id, e, subj) ==
     \/ id = "C03-KF5" /\ KF5(e, subj)
     \/ id = "C03-KF6" /\ KF6(e, subj)
     \/ id = "C03-KF7" /\ KF7(e, subj)
+    \/ id = "C03-KF8" /\ KF8(e, subj)
 =============================================================================
